@@ -78,6 +78,32 @@ package deneb
 //@   ensures aged: err == nil ==> (v_act(reg_val(st_vals(state), signedExit.Message.ValidatorIndex)) + spec.SHARD_COMMITTEE_PERIOD) % 18446744073709551616 <= epc.CurrentEpoch.Epoch
 //@   ensures signature: err == nil ==> !st_gvr_err(state) && sig_valid(signedExit.Signature) && (exists p CPubP :: pub_valid(p.Compressed) && bls_ok(p.Compressed, seq(signing_root(exit_root(signedExit.Message), compute_domain(common.DOMAIN_VOLUNTARY_EXIT, spec.CAPELLA_FORK_VERSION, st_gvr(state)))), signedExit.Signature))
 
+// ---------------------------------------------------------------- attestations from deneb on (C03; C01 for the flags)
+// get_attestation_participation_flag_indices: source must match the justified checkpoint of the target's epoch; timely
+// source within integer_squareroot(SLOTS_PER_EPOCH) slots, timely target at any delay (EIP-7045), timely head at the minimum delay.
+// process_attestation's checks as in phase0 without the upper end of the inclusion window (EIP-7045).
+//@ sort IdxAttT = phase0.IndexedAttestation
+//@ func GetApplicableAttestationParticipationFlags(spec, state, data, inclusionDelay) (out, err)
+//@   property C03 C01
+//@   requires spec != nil && state != nil && data != nil && spec.SLOTS_PER_EPOCH != 0
+//@   ensures source: err == nil ==> !st_slot_err(state) && (data.Target.Epoch == st_slot(state) / spec.SLOTS_PER_EPOCH ==> !st_curjust_err(state) && data.Source == st_curjust(state)) && (data.Target.Epoch != st_slot(state) / spec.SLOTS_PER_EPOCH ==> !st_prevjust_err(state) && data.Source == st_prevjust(state))
+//@   ensures flags: err == nil ==> !st_broots_err(state) && (exists r :: 0 <= r && r * r <= spec.SLOTS_PER_EPOCH && spec.SLOTS_PER_EPOCH < (r + 1) * (r + 1) && (let tm := roots_at(st_broots(state), data.Target.Epoch * spec.SLOTS_PER_EPOCH) == data.Target.Root in let hm := roots_at(st_broots(state), data.Slot) == data.BeaconBlockRoot in out == ite(inclusionDelay <= r, 1, 0) + ite(tm, 2, 0) + ite(tm && hm && inclusionDelay == spec.MIN_ATTESTATION_INCLUSION_DELAY, 4, 0)))
+
+//@ func ProcessAttestation(spec, epc, state, attestation) err
+//@   property C03
+//@   panics off
+//@   opt weakcalls
+//@   opt inline=closures
+//@   requires spec != nil && spec.SLOTS_PER_EPOCH != 0 && epc != nil && state != nil && attestation != nil && epc.Spec == spec && epc.ValidatorPubkeyCache != nil
+//@   requires tables: epc.PreviousEpoch != nil && epc.CurrentEpoch != nil && epc.NextEpoch != nil && sh_wf(epc.PreviousEpoch.Committees, spec.SLOTS_PER_EPOCH) && sh_wf(epc.CurrentEpoch.Committees, spec.SLOTS_PER_EPOCH) && sh_wf(epc.NextEpoch.Committees, spec.SLOTS_PER_EPOCH)
+//@   assigns anything
+//@   ensures target: err == nil ==> !st_slot_err(state) && (let cur := st_slot(state) / spec.SLOTS_PER_EPOCH in ite(cur == 0, 0, cur - 1) <= old(attestation.Data.Target.Epoch) && old(attestation.Data.Target.Epoch) <= cur)
+//@   ensures target_slot: err == nil ==> old(attestation.Data.Target.Epoch) == old(attestation.Data.Slot) / spec.SLOTS_PER_EPOCH
+//@   ensures window: err == nil ==> (old(attestation.Data.Slot) + spec.MIN_ATTESTATION_INCLUSION_DELAY) % 18446744073709551616 <= st_slot(state)
+//@   ensures source: err == nil ==> (old(attestation.Data.Target.Epoch) == st_slot(state) / spec.SLOTS_PER_EPOCH ==> !st_curjust_err(state) && old(attestation.Data.Source) == st_curjust(state)) && (old(attestation.Data.Target.Epoch) != st_slot(state) / spec.SLOTS_PER_EPOCH ==> !st_prevjust_err(state) && old(attestation.Data.Source) == st_prevjust(state))
+//@   ensures index: err == nil ==> (let te := old(attestation.Data.Target.Epoch) in (te == old(epc.PreviousEpoch.Epoch) ==> old(attestation.Data.Index) < old(len(epc.PreviousEpoch.Committees[0]))) && (te != old(epc.PreviousEpoch.Epoch) && te == old(epc.CurrentEpoch.Epoch) ==> old(attestation.Data.Index) < old(len(epc.CurrentEpoch.Committees[0]))) && (te != old(epc.PreviousEpoch.Epoch) && te != old(epc.CurrentEpoch.Epoch) ==> te == old(epc.NextEpoch.Epoch) && old(attestation.Data.Index) < old(len(epc.NextEpoch.Committees[0]))))
+//@   ensures indexed: err == nil ==> (exists ia IdxAttT :: idxatt_ok(spec, epc, state, ia) && ia.Data == old(attestation.Data) && ia.Signature == old(attestation.Signature))
+
 // BEGIN C18 generated (tools/gen_c18.py in /verif)
 // cancelled: a context cancelled before the call makes it fail; surfaced: a cancellation observed by a poll
 // during the call makes it fail; polled: success after a poll means the context was not cancelled at entry.
